@@ -10,6 +10,7 @@ identical, and a wrong password never opens an encrypted key."""
 from common import *
 import cryptolib as CL
 import json, base64, hashlib
+from derw import seq, dint, doctets
 
 KINDS = ["length", "integer", "int", "boolean", "bitstring", "oid", "utf8", "printable", "encint", "encoid", "time"]
 
@@ -173,17 +174,35 @@ def body():
     lines, cases = text_cases(c, chunkings)
     # composite objects
     comp = [{"kind": "composite", "obj": o, "seed": s, "id": 900000 + i} for i, (o, s) in enumerate((o, s) for o in ("sig", "ciphertext", "pubkeyinfo", "privkey", "pkcs8", "pkcs8enc", "name") for s in range(1, (6 if c.quick else 40)))]
-    res = CL.run_script("textdrv", ["textdrv.c", "vh.c"], lines + comp, tag="c14t", procs=8)
+    # SM2 ciphertext / signature DER whose sizes walk across the capacity of the decoded object and the DER length-form switches: accepted ones re-encode
+    # identically, oversized ones are refused (the decoded object is an exact-size allocation)
+    import sm2ref
+    Pc = sm2ref.mul(0x1234567, sm2ref.G)
+    sized = []
+    for L in sorted(set([1, 2, 31, 32, 33, 100, 127, 128, 129, 200, 253, 254, 255, 256, 257, 300, 366, 367, 400, 1000] + ([] if c.quick else list(range(240, 270))))):
+        sized.append(("ctder", seq(dint(Pc[0]), dint(Pc[1]), doctets(bytes(range(32))), doctets(bytes((i * 7 + L) & 255 for i in range(L)))), L <= 255, "c2len%d" % L))
+    for rl, sl in ((32, 32), (31, 32), (32, 1), (1, 1), (33, 32), (32, 33), (40, 32)):
+        rv = int.from_bytes(b"\x7f" + b"\x11" * (rl - 1), "big"); sv = int.from_bytes(b"\x7e" + b"\x22" * (sl - 1), "big")
+        sized.append(("sigder", seq(dint(rv), dint(sv)), rl <= 32 and sl <= 32, "r%d_s%d" % (rl, sl)))
+    comp += [{"kind": "composite", "obj": o, "data": d.hex(), "seed": 1, "id": 950000 + i, "_expect": ok, "_tag": tag} for i, (o, d, ok, tag) in enumerate(sized)]
+    res = CL.run_script("textdrv", ["textdrv.c", "vh.c"], [{k: v for k, v in l.items() if not k.startswith("_")} for l in lines + comp], tag="c14t", procs=8)
+    res = [(orig, evs, san) for orig, (_, evs, san) in zip(lines + comp, res)]
     jc, meta = [], []
     for (line, evs, san), case in zip(res, cases + [None] * len(comp)):
         if case is None:
-            key = "c14:composite:%s:seed%s" % (line["obj"], line["seed"])
+            key = "c14:composite:%s:%s" % (line["obj"], line.get("_tag") or "seed%s" % line["seed"])
             c.count(1, key)
             if san or not evs:
-                c.violation(key + ":crash", "driver died / sanitizer report: %s" % san, {"line": line})
+                c.violation(key + ":crash", "driver died / sanitizer report: %s" % san, {"line": {k: str(v)[:200] for k, v in line.items()}})
                 continue
             ev = evs[0]
             c.cov["traces_validated_against_impl"] += 1
+            if "_expect" in line:
+                if line["_expect"] and not (ev["rcdec"] == 1 and ev["left"] == 0 and ev["resame"]):
+                    c.violation(key, "a canonical encoding within the object's capacity is not accepted / does not re-encode identically (rc=%s, left=%s)" % (ev["rcdec"], ev["left"]), {"line": {k: str(v)[:200] for k, v in line.items()}, "library": ev})
+                elif not line["_expect"] and ev["rcdec"] == 1:
+                    c.violation(key, "an encoding that does not fit the decoded object is accepted", {"line": {k: str(v)[:200] for k, v in line.items()}, "library": ev})
+                continue
             problems = []
             if ev["rcenc"] != 1: problems.append("encoding failed")
             if ev["dry"] != ev["len"] and line["obj"] != "pkcs8enc": problems.append("dry-run length %s != written length %s" % (ev["dry"], ev["len"]))
